@@ -10,10 +10,19 @@ user writes it) in three layouts
     one    x = Int(n, ...)                                   (one-field packet)
     multi  pad = Int(1); x = Int(n, ...); tail = Int(2)      (vectorised struct run for n in 1,2,4,8,
                                                               generic loop otherwise)
-    rep    x = Int(n, ...).repeated(2)                       (sequence element)
+    rep    x = Int(n, ...).repeated(2)                       (sequence element, fixed count)
+    opt    flag = Int(1); x = Int(n, ...).when(flag)         (optional field; flag != 0 present, flag 0 absent)
+    unt    x = Int(n, ...).repeated(until=lambda pkt, **k: len(pkt.x) >= 2)   (sequence element, until condition)
+    ref    k = Int(1); x = Ref(lambda pkt, **k2: Int(n, ..., endianness=<explicit>), default=0)
+                                                             (run-time selected field; bisturi compiles a selector-
+                                                              returned field with an EMPTY configuration, so only
+                                                              configurations with an explicit endianness are declared
+                                                              this way and class defaults are never judged through it)
 
-each under the three code-generation option sets (all generic / default / vectorize off):
-9 classes per configuration, defined once and shared by all inputs.
+one/multi/rep under the three code-generation option sets (all generic / default / vectorize off), the
+wrapped layouts under the default options (opt also all-generic in thorough); classes are defined once per
+configuration and shared by all inputs.  The class-level default byte order must be honoured by an Int
+wrapped in .when(...) / .repeated(...) exactly as by a plain field.
 
 Oracle (written from the statement, never calls int.from_bytes/int.to_bytes/struct):
     unsigned value = sum b_k * 256^k over the bytes in the declared order,
@@ -40,28 +49,35 @@ REQUIRED = (
     "struct_path_classes", "loop_path_classes",
     "generated_code_classes", "generic_code_classes", "vectorised_struct_runs",
     "class_default_configs", "oracle_selfchecks",
+    "layout_opt_checked", "layout_unt_checked", "layout_ref_checked", "opt_absent_checked",
+    "opt_class_default_little_checked", "unt_class_default_little_checked",
 )
 RULE = {
     "quick": "widths 1..9 and 16 x signed/unsigned x 13 byte-order configurations (field endianness None under the 5 class "
              "defaults; big/little/network/local with the class default unset and with a contrary class default), each declared "
-             "as 6 classes: one field under the 3 code-generation option sets; pad=Int(1),x,tail=Int(2) under default and "
-             "vectorize-off options; x.repeated(2) under default options. Inputs: n=1 all 256 patterns on every class "
-             "(exhaustive sub-space); n>=2 every byte lane x 256 values over backgrounds 00/ff/55/seeded random, 64 seeded random "
-             "patterns, and 16 boundary patterns (boundaries on every class; lane/random groups on one class per layout for n in "
-             "2..4 and on one class above, rotated over the classes). Each decoded pattern is packed back from the oracle's value. "
+             "as 8-9 classes: one field under the 3 code-generation option sets; pad=Int(1),x,tail=Int(2) under default and "
+             "vectorize-off options; x.repeated(2); flag=Int(1),x=<Int>.when(flag); x=<Int>.repeated(until=len>=2); and, only for "
+             "configurations with an explicit endianness, k=Int(1),x=Ref(lambda: <Int>, default=0) (a selector-returned field is "
+             "compiled with an empty configuration, so class defaults are not judged through Ref). Inputs: n=1 all 256 patterns on "
+             "every class (exhaustive sub-space); n>=2 every byte lane x 256 values over backgrounds 00/ff/55/seeded random, 64 "
+             "seeded random patterns, and 16 boundary patterns (boundaries on every class; lane/random groups on one class per "
+             "layout for n=2, on one plain + one wrapped class for n in 3,4, on one class above, rotated so that every class - in "
+             "particular the optional layout of every configuration - gets at least two lane groups). Each decoded pattern is "
+             "packed back from the oracle's value. Optional layout: flag 0 must give None, consume and emit nothing. "
              "Per class: representable boundary values through the constructor (packed, decoded back, also at an offset with "
              "trailing bytes); out-of-range integers (lo-1, hi+1, +-2^(8n), wrap candidates, huge), non-integers (1.5, '1', None, "
-             "b'\\x01') and truncations - the complete sets (every cut, every short offset) on the classes of two byte-order "
-             "configurations per width and signedness, a rotating selection (lo-1 or hi+1, one more, a non-integer on every other "
-             "class, three cuts) on all other classes, because each PacketError costs the library 0.5-4 ms. "
-             "One evaluation = one (class, input) operation. distinct non-trivial = distinct (class, pattern group) pairs; a group "
-             "(one lane x 256 values, the boundary set, ...) always contains patterns whose big/little and signed/unsigned "
-             "readings differ, so a wrong order, sign or width cannot pass a group.",
+             "b'\\x01'; None is 'absent' for the optional layout) and truncations - the complete sets (every cut, every short "
+             "offset) on the classes of one byte-order configuration per width and signedness (big and little alternate with "
+             "the width; rejection does not depend on the byte order), a rotating selection (lo-1 or hi+1, one more candidate or "
+             "a non-integer, two cuts) on all other classes, because each PacketError "
+             "costs the library 0.5-4 ms. One evaluation = one (class, input) operation. distinct non-trivial = distinct (class, "
+             "pattern group) pairs; a group (one lane x 256 values, the boundary set, ...) always contains patterns whose "
+             "big/little and signed/unsigned readings differ, so a wrong order, sign or width cannot pass a group.",
     "thorough": "as quick with widths 1..33, all 25 (field endianness x class default) combinations for n<=16 (the 13 of quick "
-                "above), all 9 layout x option-set classes, and for n<=2 ALL byte patterns (256 / 65536) on every class of every "
-                "configuration (exhaustive sub-space: decode of every pattern and encode of every representable value for "
-                "n<=2). Lane/random groups on all 9 classes for n in 3,4, on 3 (one per layout) for n in 5..9 and 16, on one "
-                "rotating class otherwise. Sharded by (width, configuration).",
+                "above), all 9 plain layout x option-set classes plus opt (default and all-generic), unt and ref, and for n<=2 "
+                "ALL byte patterns (256 / 65536) on every class of every configuration (exhaustive sub-space: decode of every "
+                "pattern and encode of every representable value for n<=2). Lane/random groups on all classes for n in 3,4, on "
+                "one class per layout for n in 5..9 and 16, on one rotating class otherwise. Sharded by (width, configuration).",
 }
 ASSUMPTIONS = [
     "the arithmetic oracle (sum b_k*256^k in the declared order, minus 2^(8n) when the top bit is set; inverse for encode) is "
@@ -74,20 +90,25 @@ ASSUMPTIONS = [
     "objects with __index__ and integral floats (2.0) are not judged",
     "a truncated input (fewer than n bytes left) that makes unpack raise something other than PacketError is counted, not "
     "judged here (C12); only a successful decode of fewer than n bytes is a C05 violation",
+    "a field returned by a Ref selector is compiled by bisturi with an empty configuration: the class-level default is not "
+    "expected to reach it, so the ref layout is only declared with an explicit endianness",
+    "optional layout: any non-zero flag means present; None assigned to the optional field means absent (not a non-integer)",
     "exhaustive=true refers to the sub-space n=1 (quick) / n<=2 (thorough) of the tier's configurations only; "
     "wider widths are lane- and boundary-sampled",
 ]
 
 SPELLINGS = (None, "big", "little", "network", "local")
 CLASS_DEFAULTS = (None, "little", "big", "network", "local")
-LAYOUTS = ("one", "multi", "rep")
+LAYOUTS = ("one", "multi", "rep", "opt", "unt", "ref")
+SEQ_LAYOUTS = ("rep", "unt")
+WRAPPED_OPTS = {"opt": ("def", "gen"), "unt": ("def",), "ref": ("def",)}   # option sets of the wrapped layouts
 OPTSETS = (
     ("gen", {"generate_for_pack": False, "generate_for_unpack": False}),
     ("def", {}),
     ("nov", {"vectorize": False}),
 )
 NONINTS = (1.5, "1", None, b"\x01")
-HEADER = "from bisturi.packet import Packet\nfrom bisturi.field import Int\n\n"
+HEADER = "from bisturi.packet import Packet\nfrom bisturi.field import Int, Ref\n\n"
 MAX_VIOLATIONS = 25
 
 POW = [256 ** k for k in range(80)]
@@ -202,12 +223,24 @@ def class_src(name, n, signed, spelling, cd, layout, optname, optdict):
         lines.append("    pad = Int(1)")
         lines.append("    x = %s" % field)
         lines.append("    tail = Int(2)")
-    else:
+    elif layout == "rep":
         lines.append("    x = %s.repeated(2)" % field)
+    elif layout == "opt":
+        lines.append("    flag = Int(1)")
+        lines.append("    x = %s.when(flag)" % field)
+    elif layout == "unt":
+        lines.append("    x = %s.repeated(until=lambda pkt, **k: len(pkt.x) >= 2)" % field)
+    elif layout == "ref":
+        assert spelling is not None
+        lines.append("    k = Int(1)")
+        lines.append("    x = Ref(lambda pkt, **k2: %s, default=0)" % field)
+    else:
+        raise ValueError(layout)
     return "\n".join(lines) + "\n"
 
 
-QUICK_CLASSES = (("one", "gen"), ("one", "def"), ("one", "nov"), ("multi", "def"), ("multi", "nov"), ("rep", "def"))
+QUICK_CLASSES = (("one", "gen"), ("one", "def"), ("one", "nov"), ("multi", "def"), ("multi", "nov"), ("rep", "def"),
+                 ("opt", "def"), ("unt", "def"), ("ref", "def"))
 
 
 def make_records(n, signed, spelling, cd, tier):
@@ -216,6 +249,10 @@ def make_records(n, signed, spelling, cd, tier):
         for optname, optdict in OPTSETS:
             if tier != "thorough" and (layout, optname) not in QUICK_CLASSES:
                 continue
+            if layout in WRAPPED_OPTS and optname not in WRAPPED_OPTS[layout]:
+                continue
+            if layout == "ref" and spelling is None:
+                continue      # a selector-returned Int never sees the class configuration (by design of bisturi)
             r = ClsRec()
             r.name = "I%d%s_e%s_c%s_%s_%s" % (n, "s" if signed else "u", _cap(spelling), _cap(cd), layout, optname)
             r.src = class_src(r.name, n, signed, spelling, cd, layout, optname, optdict)
@@ -234,6 +271,13 @@ def make_records(n, signed, spelling, cd, tier):
 def perform(cls, op):
     """Execute one operation on the real class.  Returns (status, what, got) with status in
     'ok' | 'violation' | 'unjudged'."""
+    status, what, got = _perform(cls, op)
+    if what and op.get("note"):
+        what = "%s (%s)" % (what, op["note"])
+    return status, what, got
+
+
+def _perform(cls, op):
     from bisturi.packet import PacketError
     kind = op["kind"]
     if kind in ("unpack", "truncated"):
@@ -305,6 +349,8 @@ def op_to_witness(op):
         w["via"] = op.get("via", "ctor")
     if "expect_bytes" in op:
         w["expect_hex"] = op["expect_bytes"].hex()
+    if "note" in op:
+        w["note"] = op["note"]
     return w
 
 
@@ -321,6 +367,8 @@ def op_from_witness(w):
         op["via"] = w.get("via", "ctor")
     if "expect_hex" in w:
         op["expect_bytes"] = bytes.fromhex(w["expect_hex"])
+    if "note" in w:
+        op["note"] = w["note"]
     return op
 
 
@@ -411,6 +459,15 @@ def tail_value(t0, t1, corder):
     return t0 * 256 + t1 if corder == "big" else t1 * 256 + t0
 
 
+def flag_byte(i):
+    """a non-zero flag (the optional field is present for any true value)"""
+    return 1 + ((i * 37) & 0x7f)
+
+
+def key_byte(i):
+    return (i * 37 + 11) & 0xff
+
+
 def hot_group(rec, pats, exps):
     """Fast path over one pattern group.  Returns None when everything agreed, else the index of the
     first pattern for which something differed or raised (re-examined by the slow path)."""
@@ -441,6 +498,30 @@ def hot_group(rec, pats, exps):
                 q.tail = tv
                 if q.pack() != raw:
                     return i
+        elif rec.layout == "opt":
+            for i, p in enumerate(pats):
+                e = exps[i]
+                fb = flag_byte(i)
+                raw = bytes((fb,)) + p
+                pkt = unpack(raw)
+                if pkt.x != e or pkt.flag != fb:
+                    return i
+                q.flag = fb
+                q.x = e
+                if q.pack() != raw:
+                    return i
+        elif rec.layout == "ref":
+            for i, p in enumerate(pats):
+                e = exps[i]
+                kb = key_byte(i)
+                raw = bytes((kb,)) + p
+                pkt = unpack(raw)
+                if pkt.x != e or pkt.k != kb:
+                    return i
+                q.k = kb
+                q.x = e
+                if q.pack() != raw:
+                    return i
         else:
             m = len(pats)
             for i, p in enumerate(pats):
@@ -466,6 +547,10 @@ def ops_for(rec, pats, exps, i, offset_prefix=b"", suffix=b""):
         pb, t0, t1 = multi_frame(i)
         raw = bytes((pb,)) + p + bytes((t0, t1))
         values, fields = {"pad": pb, "x": e, "tail": tail_value(t0, t1, rec.corder)}, ["pad", "x", "tail"]
+    elif rec.layout == "opt":
+        raw, values, fields = bytes((flag_byte(i),)) + p, {"flag": flag_byte(i), "x": e}, ["flag", "x"]
+    elif rec.layout == "ref":
+        raw, values, fields = bytes((key_byte(i),)) + p, {"k": key_byte(i), "x": e}, ["k", "x"]
     else:
         j = len(pats) - 1 - i
         raw, values, fields = p + pats[j], {"x": [e, exps[j]]}, ["x"]
@@ -482,12 +567,20 @@ def frame_values(rec, xval, i=0):
     if rec.layout == "multi":
         pb, t0, t1 = multi_frame(i)
         return {"pad": pb, "x": xval, "tail": tail_value(t0, t1, rec.corder)}
+    if rec.layout == "opt":
+        return {"flag": flag_byte(i), "x": xval}
+    if rec.layout == "ref":
+        return {"k": key_byte(i), "x": xval}
     return None
 
 
 def frame_bytes(rec, xbytes, i=0):
     if rec.layout == "one":
         return xbytes
+    if rec.layout == "opt":
+        return bytes((flag_byte(i),)) + xbytes
+    if rec.layout == "ref":
+        return bytes((key_byte(i),)) + xbytes
     pb, t0, t1 = multi_frame(i)
     return bytes((pb,)) + xbytes + bytes((t0, t1))
 
@@ -496,8 +589,8 @@ def per_class_cases(ctx, rec, rng_bytes, full, salt):
     """Boundary values through the constructor, rejections, truncations.  Low volume, generic executor.
 
     Every PacketError costs the library ~0.5-4 ms (it formats a traceback), so the complete sets run on the
-    `full` classes (two byte-order configurations per width and signedness: rejection does not depend on the byte
-    order) and a rotating selection (salt) on every other class."""
+    `full` classes (one byte-order configuration per width and signedness in quick, several in thorough: rejection
+    does not depend on the byte order) and a rotating selection (salt) on every other class."""
     run = ctx.run
     n, signed, order = rec.n, rec.signed, rec.order
     lo, hi = bounds(n, signed)
@@ -518,7 +611,7 @@ def per_class_cases(ctx, rec, rng_bytes, full, salt):
         if ctx.stop or rec.bad:
             return
         enc = encode(v, n, order, signed)
-        if rec.layout == "rep":
+        if rec.layout in SEQ_LAYOUTS:
             w = good[-1 - k]
             assign, raw, fields = {"x": [v, w]}, enc + encode(w, n, order, signed), ["x"]
         else:
@@ -539,23 +632,40 @@ def per_class_cases(ctx, rec, rng_bytes, full, salt):
                 return
     run.case(key="%s|boundary-values" % rec.name, n=0)
 
+    # the optional field absent: flag 0 -> x is None, nothing consumed, nothing emitted
+    if rec.layout == "opt":
+        note = "optional field, flag 0: x must be None and no byte consumed/emitted"
+        for op in ({"kind": "unpack", "raw": b"\x00" + rng_bytes, "offset": 0, "fields": ["flag", "x"],
+                    "expect": {"flag": 0, "x": None}, "note": note},
+                   {"kind": "unpack", "raw": b"\x00", "offset": 0, "fields": ["flag", "x"],
+                    "expect": {"flag": 0, "x": None}, "note": note},
+                   {"kind": "pack", "via": "ctor", "assign": {"flag": 0, "x": None}, "expect_bytes": b"\x00", "note": note},
+                   {"kind": "pack", "via": "attr", "assign": {"flag": 0, "x": None}, "expect_bytes": b"\x00", "note": note}):
+            run.case(key=None)
+            if not ctx.slow(rec, op, "opt_absent_checked"):
+                return
+        run.case(key="%s|absent" % rec.name, n=0)
+
     # out-of-range integers and non-integers must make pack() raise PacketError
+    # (None assigned to an optional field means "absent", not a non-integer)
+    nonints = [v for v in NONINTS if not (rec.layout == "opt" and v is None)]
     if full:
         chosen = [(k, v, "range_rejections") for k, v in enumerate(bad)]
-        chosen += [(k, v, "nonint_rejections") for k, v in enumerate(NONINTS)]
+        chosen += [(k, v, "nonint_rejections") for k, v in enumerate(nonints)]
     else:
-        # lo-1 / hi+1 alternate with one other candidate; a non-integer on every other class
+        # lo-1 / hi+1 alternate, one other candidate and a non-integer on alternating classes
         k = salt % 2
         chosen = [(salt, bad[k], "range_rejections")]
-        k = 2 + (salt // 2) % (len(bad) - 2)
-        chosen.append((salt + 1, bad[k], "range_rejections"))
+        if salt % 2 == 1:
+            k = 2 + (salt // 2) % (len(bad) - 2)
+            chosen.append((salt + 1, bad[k], "range_rejections"))
         if salt % 2 == 0:
-            k = (salt // 2) % len(NONINTS)
-            chosen.append((salt, NONINTS[k], "nonint_rejections"))
+            k = (salt // 2) % len(nonints)
+            chosen.append((salt, nonints[k], "nonint_rejections"))
     for k, v, counter in chosen:
         if ctx.stop or rec.bad:
             return
-        if rec.layout == "rep":
+        if rec.layout in SEQ_LAYOUTS:
             assigns = [{"x": [good[0], v]}, {"x": [v, good[-1]]}]
             if not full:
                 assigns = [assigns[k % 2]]
@@ -571,18 +681,18 @@ def per_class_cases(ctx, rec, rng_bytes, full, salt):
 
     # bool is an int (not judged as a non-integer): observe what it packs to
     for b in (True, False):
-        assign = {"x": [b, b]} if rec.layout == "rep" else frame_values(rec, b, 1)
+        assign = {"x": [b, b]} if rec.layout in SEQ_LAYOUTS else frame_values(rec, b, 1)
         try:
             out = rec.cls(**assign).pack()
             want = encode(int(b), n, order, signed)
-            want = want + want if rec.layout == "rep" else frame_bytes(rec, want, 1)
+            want = want + want if rec.layout in SEQ_LAYOUTS else frame_bytes(rec, want, 1)
             run.count("bool_packed_as_0_or_1" if out == want else "bool_packed_otherwise")
         except Exception:
             run.count("bool_pack_raised")
     # integral float: observed only
     if full:
         try:
-            assign = {"x": [2.0, 2.0]} if rec.layout == "rep" else frame_values(rec, 2.0, 1)
+            assign = {"x": [2.0, 2.0]} if rec.layout in SEQ_LAYOUTS else frame_values(rec, 2.0, 1)
             rec.cls(**assign).pack()
             run.count("integral_float_accepted")
         except Exception:
@@ -590,20 +700,18 @@ def per_class_cases(ctx, rec, rng_bytes, full, salt):
 
     # truncations: every cut of a complete input (full: also every starting offset that leaves too few bytes)
     other = bytes((i + 1) & 0xff for i in range(n))
-    if rec.layout == "rep":
+    if rec.layout in SEQ_LAYOUTS:
         whole, fields = rng_bytes + other, ["x"]
     else:
         whole = frame_bytes(rec, rng_bytes, salt)
-        fields = ["x"] if rec.layout == "one" else ["pad", "x", "tail"]
+        fields = {"one": ["x"], "multi": ["pad", "x", "tail"], "opt": ["flag", "x"], "ref": ["k", "x"]}[rec.layout]
     m = len(whole)
     if full:
         cuts = [(whole[:c], 0) for c in range(m)] + [(whole, off) for off in range(1, m + 1)]
     else:
-        c = salt % m
-        cuts = [(whole[:m - 1], 0), (whole[:c], 0)]
-        # a cut inside x itself (not only in the neighbours)
-        first_x = 0 if rec.layout != "multi" else 1
-        cuts.append((whole[:first_x + (salt % n)], 0))
+        # the last byte missing, and a cut inside x itself (not only in the neighbours)
+        first_x = 1 if rec.layout in ("multi", "opt", "ref") else 0
+        cuts = [(whole[:m - 1], 0), (whole[:first_x + (salt % n)], 0)]
     for raw, off in cuts:
         if ctx.stop or rec.bad:
             return
@@ -622,7 +730,10 @@ def observe_class(run, rec, scratch):
     cls = rec.cls
     for name, field, _pack, unpack in cls.get_fields():
         if name == "x":
-            target = field.prototype_field if rec.layout == "rep" else field
+            if rec.layout == "ref":
+                run.count("ref_layout_classes")      # the Int is created and compiled at every unpack/pack
+                continue
+            target = field.prototype_field if rec.layout in ("rep", "unt", "opt") else field
             fname = getattr(target.unpack, "__name__", "?")
             run.cover("int_unpack_method", fname)
             run.cover("int_pack_method", getattr(target.pack, "__name__", "?"))
@@ -656,15 +767,18 @@ def observe_class(run, rec, scratch):
 
 
 def fanout(tier, n):
-    """On how many of a configuration's classes a lane/random group runs: 0 = all, 3 = one per layout, 1 = one."""
+    """On how many of a configuration's classes a lane/random group runs: 0 = all, 3 = one per layout,
+    2 = one plain (one/multi/rep) + one wrapped (opt/unt/ref), 1 = one."""
     if tier == "thorough":
         if n <= 4:
             return 0
         return 3 if (n <= 9 or n == 16) else 1
     if n == 1:
         return 0
-    if n <= 4:
+    if n == 2:
         return 3
+    if n <= 4:
+        return 2
     return 1
 
 
@@ -677,8 +791,13 @@ def classes_for_group(recs, gi, ci, nfan):
         out = []
         for L, layout in enumerate(LAYOUTS):
             cand = [r for r in recs if r.layout == layout]
-            out.append(cand[(gi + L + ci) % len(cand)])
+            if cand:
+                out.append(cand[(gi + L + ci) % len(cand)])
         return out
+    if nfan == 2:
+        plain = [r for r in recs if r.layout not in WRAPPED_OPTS]
+        wrapped = [r for r in recs if r.layout in WRAPPED_OPTS]
+        return [plain[(gi + gi // len(plain) + ci) % len(plain)], wrapped[(gi + gi // len(wrapped) + ci) % len(wrapped)]]
     m = len(recs)
     return [recs[(gi + gi // m + ci) % m]]
 
@@ -760,8 +879,13 @@ def run(run):
                 order = recs[0].order
                 # boundaries + per-class cases on every class
                 bexp = expected("boundary", bpats, order, signed)
-                full = (sp is None and cd in (None, "little"))
                 for ri, r in enumerate(recs):
+                    if r.layout == "ref":
+                        full = (sp == ("big", "little")[n % 2] and cd is None)
+                    else:
+                        full = (sp is None and cd == (None, "little")[n % 2])
+                    if tier == "thorough":
+                        full = full or (sp in (None, "big", "little") and cd in (None, "little") and r.layout != "ref")
                     if ctx.stop:
                         break
                     run.cover("layout_x_options", "%s/%s" % (r.layout, r.opt))
@@ -794,7 +918,11 @@ def check_group(ctx, rec, gkey, pats, exps):
     if bad_i is None:
         m = len(pats)
         run.case(key="%s|%s" % (rec.name, gkey), n=2 * m)
-        mult = 2 if rec.layout == "rep" else 1
+        mult = 2 if rec.layout in SEQ_LAYOUTS else 1
+        if rec.layout in WRAPPED_OPTS:
+            run.count("layout_%s_checked" % rec.layout, m)
+            if rec.spelling is None and rec.order == "little" and rec.n >= 2 and rec.layout != "ref":
+                run.count("%s_class_default_little_checked" % rec.layout, m)
         run.count("unpack_checked", m)
         run.count("pack_checked", m)
         run.count("int_values_decoded", m * mult)
